@@ -2,6 +2,7 @@ package main
 
 import (
 	"fmt"
+	"runtime"
 	"sort"
 	"sync"
 	"sync/atomic"
@@ -369,6 +370,53 @@ func runC07(c *Ctx) error {
 			once.Do(func() { close(done) })
 			<-rl
 			c.count(tag, true, "ending="+ending, "parallel=true")
+		}
+	}
+	// ---- parallel handling applies back-pressure: while ParallelGolimit handlers are busy the reader stops taking
+	// messages off the transport (it does not park an unbounded number of messages / goroutines)
+	for _, server := range []bool{true, false} {
+		for _, limit := range []int{1, 2, 4} {
+			release := make(chan struct{})
+			h := &recHandler{}
+			h.onMsg = func(*gws.Conn, gws.Opcode, []byte) { <-release }
+			spec := connSpec{Server: server, Parallel: true, ParallelN: limit, RLimit: 8000}
+			conn, tap, err := spec.open(h)
+			if err != nil {
+				return err
+			}
+			const nmsg, size = 60, 3000
+			total := 0
+			for i := 0; i < nmsg; i++ {
+				fr := dataFrame(2, true, server, make([]byte, size))
+				total += len(fr)
+				tap.feed(fr)
+			}
+			base := runtime.NumGoroutine()
+			rl := make(chan struct{})
+			go func() { defer close(rl); conn.ReadLoop() }()
+			time.Sleep(300 * time.Millisecond)
+			tap.mu.Lock()
+			left := 0
+			for _, ch := range tap.chunks {
+				left += len(ch)
+			}
+			tap.mu.Unlock()
+			taken := total - left
+			extra := runtime.NumGoroutine() - base
+			tag := fmt.Sprintf("back-pressure role=%s limit=%d", roleName(server), limit)
+			// limit messages in handlers, one more parked in the reader, plus what the 4 KiB buffered reader has read ahead
+			if bound := (limit+2)*(size+14) + 2*4096; taken > bound || extra > limit+3 {
+				c.oracleFail(fmt.Sprintf("with %d busy handlers the reader took %d of %d bytes off the transport (bound %d) and %d goroutines were started (bound %d) [%s]", limit, taken, total, bound, extra, limit+3, tag),
+					"parallel-no-backpressure", map[string]any{"tag": tag, "bytes_taken": taken, "goroutines": extra})
+			}
+			close(release)
+			tap.setEOF()
+			select {
+			case <-rl:
+			case <-time.After(10 * time.Second):
+				c.oracleFail("ReadLoop did not return after the handlers were released ["+tag+"]", "readloop-hang", map[string]any{"tag": tag})
+			}
+			c.count(tag, true, "ending=eof", "parallel=true")
 		}
 	}
 	// goroutines started by parallel handling must all have finished
